@@ -179,6 +179,27 @@ fn main() {
     let a: Vec<String> = std::env::args().collect();
     match a[1].as_str() {
         "window" => window(&a[2], a[3].parse().unwrap()),
+        // valueq: native probe of Value equality / hashing over a pool of boundary values (special floats, permuted maps, nested arrays)
+        "valueq" => {
+            use std::hash::{Hash, Hasher};
+            let hv = |v: &Value| { let mut h = std::collections::hash_map::DefaultHasher::new(); v.hash(&mut h); h.finish() };
+            let mk_map = |ents: &[(&str, Value)]| { let mut m: indexmap::IndexMap<std::sync::Arc<str>, Value, rustc_hash::FxBuildHasher> = indexmap::IndexMap::with_hasher(rustc_hash::FxBuildHasher); for (k, v) in ents { m.insert((*k).into(), v.clone()); } Value::map(m) };
+            let mut pool: Vec<Value> = vec![Value::Null, Value::Bool(true), Value::Bool(false), Value::Int(0), Value::Int(1), Value::Int(-1), Value::Int(i64::MIN),
+                Value::Float(0.0), Value::Float(-0.0), Value::Float(1.0), Value::Float(f64::NAN), Value::Float(-f64::NAN), Value::Float(f64::INFINITY),
+                Value::Str("".into()), Value::Str("a".into()), Value::Str("0".into()), Value::Timestamp(0), Value::Timestamp(1), Value::Duration(0), Value::Duration(1),
+                Value::array(vec![]), Value::array(vec![Value::Int(1)]), Value::array(vec![Value::Int(1), Value::Float(f64::NAN)]), Value::array(vec![Value::Float(f64::NAN), Value::Int(1)])];
+            pool.push(mk_map(&[])); pool.push(mk_map(&[("a", Value::Int(1))]));
+            pool.push(mk_map(&[("a", Value::Int(1)), ("b", Value::Int(2))])); pool.push(mk_map(&[("b", Value::Int(2)), ("a", Value::Int(1))]));
+            pool.push(mk_map(&[("a", Value::Int(2)), ("b", Value::Int(1))])); pool.push(mk_map(&[("a", Value::Float(0.0)), ("b", Value::Float(f64::NAN))]));
+            pool.push(mk_map(&[("b", Value::Float(f64::NAN)), ("a", Value::Float(-0.0))]));
+            for x in &pool { if x != x { println!("REPRODUCED Value equality is not reflexive for {:?}", x); std::process::exit(1); } }
+            for x in &pool { for y in &pool {
+                if (x == y) != (y == x) { println!("REPRODUCED Value equality is not symmetric for {:?} / {:?}", x, y); std::process::exit(1); }
+                if x == y && hv(x) != hv(y) { println!("REPRODUCED equal values hash differently: {:?} and {:?}", x, y); std::process::exit(1); }
+                for z in &pool { if x == y && y == z && x != z { println!("REPRODUCED Value equality is not transitive for {:?}, {:?}, {:?}", x, y, z); std::process::exit(1); } }
+            } }
+            println!("OK Value equality is an equivalence consistent with hashing on the {} probe values", pool.len());
+        }
         // fold <binary|unary> <Op> <Lclass> <L> [<Rclass> <R>] <x_present 0|1> <xclass> <x>: fold the expression with the real optimizer
         // (fold_program on a one-statement program) and evaluate folded and unfolded against the same event
         "fold" => {
